@@ -168,7 +168,7 @@ func checkC13(c *Ctx, r *Report) {
 		"R3 victims are sorted by descending priority (comparator compares second argument's priority with the first's) and the loop walks from the front; priority is non-decreasing in age since last access and in size",
 		"R4 cleanup re-evaluates expiry of the entry stored under the key after acquiring its lock (isExpired==true dominates the removal; no act-on-stale-check)",
 		"R5 only keys whose metadata is expired at scan time are collected",
-		"R6 the janitor acquires shard locks only with TryLock and skips on failure",
+		"R6 every removal by the janitor (eviction and cleanup) happens with the key lock of that entry held exclusively — taken with TryLock (skip on failure) or by a dominating blocking Lock; whether waiting is permitted there is decided by C14",
 		"R7 limit and interval consumers read the live setting (see C19.R4)",
 	}
 	r.NotDec = []string{"which entries actually remain (run-time populations)", "the 80 % arithmetic and weights as numbers", "eviction order among entries skipped because they are in use"}
@@ -272,8 +272,8 @@ func checkC13(c *Ctx, r *Report) {
 				}
 			}
 			r.Check(inLoop, "C13.R2", fmt.Sprintf("evict: removal #%d is inside the candidate loop", i+1), c.InstrPos(rm), "loop body", "removal is not in a loop")
-			okTry := hasFact(fs, "TryLock(getLock(", true)
-			r.Check(okTry, "C13.R6", fmt.Sprintf("evict: removal #%d under a successful TryLock", i+1), c.InstrPos(rm), "TryLock(getLock(key)) == true", "an entry is evicted without holding its lock via TryLock")
+			okTry := hasFact(fs, "TryLock(getLock(", true) || lockedBefore(li, rmFn[rm], rm, "Lock(getLock(")
+			r.Check(okTry, "C13.R6", fmt.Sprintf("evict: removal #%d under the entry's key lock", i+1), c.InstrPos(rm), "TryLock(getLock(key)) == true, or a dominating Lock(getLock(key)) still held (whether waiting is allowed there is C14's question)", "an entry is evicted without holding its key lock")
 			_ = target
 		}
 		r.Floor("C13.R2", len(removes), 1, "removals in evict")
@@ -390,18 +390,18 @@ func checkC13(c *Ctx, r *Report) {
 			g := rmFn[rm]
 			fs := factStrsCtx(li, g, rm)
 			arg := atomStr(rm.Call.Args[0])
-			okLock := fs["TryLock(getLock("+arg+"))=true"]
+			okLock := fs["TryLock(getLock("+arg+"))=true"] || lockedBefore(li, g, rm, "Lock(getLock("+arg+"))")
 			okExp := fs["isExpired("+arg+")=true"]
 			// the re-check happens after the lock was taken: the isExpired call itself is made with the lock held
 			okOrder := false
 			eachInstr(g, func(in ssa.Instruction) {
 				if x, ok := in.(*ssa.Call); ok && atomStr(x) == "isExpired("+arg+")" {
-					if factStrsCtx(li, g, x)["TryLock(getLock("+arg+"))=true"] {
+					if factStrsCtx(li, g, x)["TryLock(getLock("+arg+"))=true"] || lockedBefore(li, g, x, "Lock(getLock("+arg+"))") {
 						okOrder = true
 					}
 				}
 			})
-			r.Check(okLock, "C13.R6", fmt.Sprintf("cleanup: removal #%d under a successful TryLock of the same key", i+1), c.InstrPos(rm), "TryLock(getLock(key)) == true", "an expired entry is removed without holding its key lock via TryLock")
+			r.Check(okLock, "C13.R6", fmt.Sprintf("cleanup: removal #%d under the lock of the same key", i+1), c.InstrPos(rm), "TryLock(getLock(key)) == true, or a dominating Lock(getLock(key)) still held", "an expired entry is removed without holding its key lock")
 			r.Check(okExp && okOrder, "C13.R4", fmt.Sprintf("cleanup: removal #%d re-checks expiry under the lock", i+1), c.InstrPos(rm), "isExpired(key) == true, evaluated after TryLock succeeded, dominates the removal", "the entry is removed on the strength of the lock-free scan alone: a fresh overwrite that landed between scan and removal is deleted")
 		}
 		r.Floor("C13.R4", len(removes), 1, "removals in cleanExpiredEntries")
@@ -479,4 +479,19 @@ func checkC13(c *Ctx, r *Report) {
 		})
 		r.Check(ok, "C13.R7", "periodic cycle reads the live max_cache_size", c.Pos(f.Pos()), "cfg.Cache.MaxCacheSize.Read() per cycle", "ensureCacheSize does not read the live limit")
 	}
+}
+
+// lockedBefore reports whether a blocking exclusive acquisition whose atom starts with prefix dominates at
+// in the same function and the shard class is still exclusively held there.
+func lockedBefore(li *LockInfo, g *ssa.Function, at ssa.Instruction, prefix string) bool {
+	if !li.HeldMustX(at)["S"] {
+		return false
+	}
+	found := false
+	eachInstr(g, func(in ssa.Instruction) {
+		if x, ok := in.(*ssa.Call); ok && !found && strings.HasPrefix(atomStr(x), prefix) && x.Parent() == at.Parent() && instrDominates(x, at) {
+			found = true
+		}
+	})
+	return found
 }
